@@ -1403,14 +1403,15 @@ var msgMatchers = []msgMatcher{
 		cases: []msgCase{
 			{"no-auth offer", []byte{5, 1, 0}, "yes"},
 			{"three known methods", []byte{5, 3, 0, 1, 2}, "yes"},
-			{"no methods", []byte{5, 0}, "yes"},
+			{"no methods", []byte{5, 0}, "no"},
+			{"no methods, more bytes behind", []byte{5, 0, 1, 0}, "no"},
 			{"unknown method among known", []byte{5, 2, 0, 0x80}, "no"},
 			{"version 4", []byte{4, 1, 0}, "no"},
 			{"methods truncated", []byte{5, 3, 0, 1}, "more"},
 			{"only the version", []byte{5}, "more"},
 			{"empty", []byte{}, "more"},
 		},
-		source: "RFC 1928 3: VER=5, NMETHODS, METHODS; every offered method must be one of the configured ones",
+		source: "RFC 1928 3: VER=5, NMETHODS, METHODS of 1 to 255 octets; every offered method must be one of the configured ones",
 	},
 	{
 		fn: "modules/l4socks.(*Socks5Matcher).Match", cfgName: "socks5 methods=[2]",
